@@ -51,6 +51,9 @@ def oracle(scn, obs, ref, schedule):
             continue
         if c["state_after"] not in ("idle", "paused"):
             out.append(("transient-state-after-call", f"{c['name']}() ended ({c['outcome']}, {type(c['exc']).__name__}) with state {c['state_after']}"))
+        elif c.get("state_drained") not in (None, "idle", "paused"):
+            # the loop has nothing left to run and no request is in flight, yet the state is transient: stuck for good
+            out.append(("stuck-in-transient-state", f"after {c['name']}() returned with state {c['state_after']} the engine settled in state {c['state_drained']} with an empty event loop"))
         e = c["exc"]
         if isinstance(e, TransitionError) or (isinstance(e, RuntimeError) and "The RunEngine is in a" in str(e)):
             out.append(("legal-call-refused", f"{c['name']}() raised {type(e).__name__}: {str(e)[:120]}"))
